@@ -21,6 +21,7 @@ type c07Input struct {
 	Msgs  [][]byte
 	Phase string // "pre": before evil's hello; "post": after the session is established
 	Class string // grammar class, used in violation keys
+	NewPeer string // after the messages a further backend session is opened whose handshake announces this node ID
 }
 
 // pingVia issues a ping in a helper goroutine and pumps deliveries until it returns.
@@ -124,6 +125,21 @@ func runC07Input(t *testing.T, in c07Input) CaseOut {
 			drainEvil()
 			m.flush()
 		}
+		if in.NewPeer != "" && !ev.isClosed() {
+			// what the first session said about a third node must not trip up that node's own later session
+			np := m.attach("v", in.NewPeer)
+			np.inject(mkRoute(wireRoute{NodeID: in.NewPeer, UpdateID: "np1", UpdateEpoch: 2000, UpdateSequence: 1, Connections: map[string]float64{"v": 1}, ForwardingNode: in.NewPeer}))
+			synctest.Wait()
+			m.flush()
+			m.tick(150 * time.Millisecond)
+			np.inject(mkRoute(wireRoute{NodeID: in.NewPeer, UpdateID: "np2", UpdateEpoch: 2000, UpdateSequence: 2, Connections: map[string]float64{"v": 1}, ForwardingNode: in.NewPeer}))
+			synctest.Wait()
+			if s := m.sess["v>"+in.NewPeer]; s != nil {
+				s.mu.Lock()
+				s.outbox = nil
+				s.mu.Unlock()
+			}
+		}
 		m.settle()
 		drainEvil()
 		// health: the victim still works for its well-behaved peer
@@ -217,6 +233,16 @@ func c07Grammar(thorough bool) []c07Input {
 					baseRoute(map[string]string{"NodeID": `"` + nid + `"`, "UpdateID": `"u-n"`, "UpdateEpoch": ep, "SuspectedDuplicate": sd}, ""))
 			}
 		}
+	}
+	// two updates about a third node x (the second one with an odd connection list), then x itself connects
+	for _, conns := range []string{`null`, `{}`, `{"v":1}`, `{"evil":1,"v":1}`, "@ABSENT@"} {
+		first := baseRoute(map[string]string{"NodeID": `"x"`, "UpdateID": `"x-1"`, "UpdateEpoch": `1500`, "UpdateSequence": `1`, "Connections": `{"evil":1}`}, "")
+		second := baseRoute(map[string]string{"NodeID": `"x"`, "UpdateID": `"x-2"`, "UpdateEpoch": `1500`, "UpdateSequence": `2`, "Connections": conns}, "")
+		if conns == "@ABSENT@" {
+			second = baseRoute(map[string]string{"NodeID": `"x"`, "UpdateID": `"x-2"`, "UpdateEpoch": `1500`, "UpdateSequence": `2`}, "Connections")
+		}
+		ins = append(ins, c07Input{Name: "updates about x (second with Connections " + conns + "), then x connects", Msgs: [][]byte{first, second}, Class: "route-third-node-then-its-session", NewPeer: "x"})
+		ins = append(ins, c07Input{Name: "one update about x with Connections " + conns + ", then x connects", Msgs: [][]byte{second}, Class: "route-third-node-then-its-session", NewPeer: "x"})
 	}
 	add("route-absurd", "forwarder changes to g", baseRoute(map[string]string{"ForwardingNode": `"g"`}, ""))
 	add("route-absurd", "forwarder is the victim", baseRoute(map[string]string{"ForwardingNode": `"v"`}, ""))
@@ -362,7 +388,7 @@ func init() {
 		ID:        "C07",
 		Level:     "exploration",
 		Technique: "bounded-exhaustive enumeration of a message grammar delivered by a scripted peer to a real Netceptor node in a synctest bubble, and over a real TCP backend connection to the real daemon process, each input followed by a liveness probe from a well-behaved real neighbour",
-		Rule: "messages: length 0; every type byte {0,1,2,3,4,255} x {empty, truncated JSON, binary, deep nesting, 12 JSON value shapes}; routing update and service advertisement with each of their 7 fields absent or replaced by 15/13 wrongly typed values; semantically absurd updates (victim's own ID with same/newer/older epoch, forged duplicate notice, forwarder change, cost disagreement, 3000 connections, 70 KB strings); data packets of every length 1..41, TTL {0,1,255} x 4x4 node hashes x 5 service names, malformed unreach/ping payloads, 64 KB packet; each in both protocol phases (thorough: all ordered pairs of class representatives); two representatives of every grammar class (thorough: every input) also against the real daemon over a real TCP backend connection, with a second real connection as the well-behaved neighbour. " +
+		Rule: "messages: length 0; every type byte {0,1,2,3,4,255} x {empty, truncated JSON, binary, deep nesting, 12 JSON value shapes}; routing update and service advertisement with each of their 7 fields absent or replaced by 15/13 wrongly typed values; semantically absurd updates (victim's own ID with same/newer/older epoch, forged duplicate notice, updates about a third node with null / empty / absent connection lists followed by that node's own session, forwarder change, cost disagreement, 3000 connections, 70 KB strings); data packets of every length 1..41, TTL {0,1,255} x 4x4 node hashes x 5 service names, malformed unreach/ping payloads, 64 KB packet; each in both protocol phases (thorough: all ordered pairs of class representatives); two representatives of every grammar class (thorough: every input) also against the real daemon over a real TCP backend connection, with a second real connection as the well-behaved neighbour. " +
 			"Every input is a distinct message; all are non-trivial (delivered to the real runProtocol loop). Oracle: process alive, victim not shut down, ping g->v and v->g answered, route intact; real daemon: process alive, `status` answered on the control socket, the neighbour's ping datagram answered, a fresh backend connection greeted.",
 		Assumptions: []string{"the liveness probe uses the direct link between victim and good peer (a mesh member can by design advertise false topology about third nodes)"},
 		Run:         runC07,
